@@ -212,7 +212,7 @@ def move_staticmethod_static_scope(source: str, preserve: Collection[str]) -> st
     for before, after in replacements.items():
         yield before, after, transaction
 
-    transaction = 1
+    # The references are of no use without the moved functions, and the other way around
     for classdef in parsing.iter_classdefs(root):
         for funcdef in parsing.iter_funcdefs(classdef):
             new_name = name_replacements.get((classdef.name, funcdef.name))
@@ -237,8 +237,6 @@ def move_staticmethod_static_scope(source: str, preserve: Collection[str]) -> st
             )
             yield funcdef, None, transaction
             yield None, funcdef_static, transaction
-
-            transaction += 1
 
 
 @processing.fix
